@@ -29,11 +29,12 @@ text = quoted_after(r'level_claimed\.text`?\*{0,2}[^\n"“]*?:?\s*')
 note = quoted_after(r'level_note`?\*{0,2}[^\n"“]*?:?\s*')
 # DESIGN replacement
 hm = None
-for hm in re.finditer(r'^#{2,4} [^\n]*DESIGN[^\n]*\n', r3, re.M):
+for hm in re.finditer(r'^(?:#{2,4} [^\n]*DESIGN[^\n]*|\*\*[^\n]*[Rr]eplacement[^\n]*DESIGN[^\n]*\*\*[^\n]*)\n', r3, re.M):
     pass
 design_new = None
 if hm and ('replacement' in hm.group(0).lower() or '§6' in hm.group(0)):
-    body = r3[hm.end():]
+    body = r3[hm.end():].lstrip('\n')
+    body = re.sub(r'^\s*#{2,4} ' + pid + r'[^\n]*\n+', '', body)
     e = re.search(r'^#{1,3} ', body, re.M)
     body = body[:e.start()] if e else body
     body = body.strip('\n')
